@@ -280,7 +280,9 @@ func (c *Ctx) runSeq(line string) {
 	c.emit(line, obs, nt)
 }
 
-func genC04(c *Ctx) {
+func genC04(c *Ctx) { withOracle(c, (*oracleState).c04, genSeq) }
+
+func genSeq(c *Ctx) {
 	i := 0
 	for k := 0; k < c.scale(2500, 60000); k++ {
 		i++
@@ -297,5 +299,12 @@ func genC04(c *Ctx) {
 	}
 }
 
-func genC05(c *Ctx) { genC04(c) }
-func genC12(c *Ctx) { genC04(c) }
+func withOracle(c *Ctx, f func(o *oracleState, st *seqStep), gen func(c *Ctx)) {
+	o := &oracleState{c: c, valid: map[uint32]int{}}
+	seqOracle = func(st *seqStep) { f(o, st) }
+	gen(c)
+	seqOracle = nil
+}
+
+func genC05(c *Ctx) { withOracle(c, (*oracleState).c05, genSeq) }
+func genC12(c *Ctx) { withOracle(c, (*oracleState).c12, genSeq) }
